@@ -37,6 +37,8 @@ VALUES = {
         'exp': [D('1E+3'), D('2.5E-7')],
         'int_valued': [D('7'), 3.0],
         'nonfinite': [D('NaN'), D('Infinity'), D('-Infinity')],
+        # equal values that are written differently (used only where named explicitly)
+        'same_value_other_scale': [D('2.5'), D('2.50'), D('2.500'), D('10'), D('1E+1'), D('10.0')],
     },
     'boolean': {'bool': [True, False]},
     'date': {
